@@ -91,6 +91,17 @@ type c16Case struct {
 	// CancelEarly: the stop request (context cancellation, what SIGTERM does) arrives while the first fan is being
 	// analysed and the others wait for their turn; analyses that still take place afterwards are serial all the same
 	CancelEarly bool `json:"cancelEarly,omitempty"`
+	// LateReadable: per fan (file fans), the number of initial reads of the PWM file that fail (the file is provided by
+	// another program a moment after fan2go has started); whether the fan is then swept or given the default map is
+	// fan2go's business, what is analysed is analysed serially
+	LateReadable []int `json:"lateReadable,omitempty"`
+}
+
+func (c *c16Case) late(i int) int {
+	if i < len(c.LateReadable) {
+		return c.LateReadable[i]
+	}
+	return 0
 }
 
 func (c *c16Case) cfgMap(i int) bool { return i < len(c.CfgMap) && c.CfgMap[i] }
@@ -216,6 +227,9 @@ func runC16(ctx *Ctx, c *c16Case) (intervals []c16Interval, ok bool) {
 		d.Plants[rpm] = &util.VerifPlant{RpmPath: rpm, PwmPath: pwm, Kind: "linear", MaxRpm: 2000}
 		if c.FailFirst && i == 0 {
 			d.Rules = append(d.Rules, &util.VerifRule{Path: pwm, Op: "w", From: 257, Action: "fail", Errno: "EIO", DelayMs: 100})
+		}
+		if k := c.late(i); k > 0 {
+			d.Rules = append(d.Rules, &util.VerifRule{Path: pwm, Op: "r", To: k, Action: "fail", Errno: "ENOENT"})
 		}
 		d.Rules = append(d.Rules, &util.VerifRule{Path: pwm, Op: "w", Action: "quant", Val: c.Levels[i]})
 		d.Mu.Unlock()
@@ -368,6 +382,14 @@ func runC16(ctx *Ctx, c *c16Case) (intervals []c16Interval, ok bool) {
 		if sp.savedMap[ids[i]] > end {
 			end = sp.savedMap[ids[i]]
 		}
+		if c.late(i) > 0 && end != 0 && (first[i] == 0 || first[i] > end) {
+			// no device write before the map was stored: the fan was given the default map, there was no analysis
+			ctx.Count("late_readable_fans_not_swept", 1)
+			continue
+		}
+		if c.late(i) > 0 && end != 0 {
+			ctx.Count("late_readable_fans_swept", 1)
+		}
 		if end == 0 || first[i] == 0 {
 			ctx.Inconclusive(fmt.Sprintf("analysis of fan %d did not finish: %s", i, jsonStr(c)))
 			return nil, false
@@ -392,6 +414,15 @@ func c16Overlaps(iv []c16Interval) (int, string) {
 		}
 	}
 	return n, desc
+}
+
+// genC16Late: a hwmon fan and one or two file fans whose PWM file cannot be read at first (k failing reads)
+func genC16Late(r *rand.Rand, k int) *c16Case {
+	c := &c16Case{ViaRun: true, Kinds: []string{"hwmon", "file"}, Levels: []int{pick(r, 6, 9), pick(r, 3, 4, 6)}, DelaysMs: []int{0, pick(r, 0, 0, 5, 20)}, LateReadable: []int{0, k}}
+	if r.Intn(2) == 0 {
+		c.Kinds, c.Levels, c.DelaysMs, c.LateReadable = append(c.Kinds, "file"), append(c.Levels, pick(r, 3, 4)), append(c.DelaysMs, pick(r, 0, 10)), append(c.LateReadable, pick(r, 0, k, 1+r.Intn(4)))
+	}
+	return c
 }
 
 func genC16(r *rand.Rand) *c16Case {
@@ -440,6 +471,9 @@ func init() {
 		n := ctx.N(48, 600)
 		for i := 0; i < n && !ctx.Abort; i++ {
 			c := genC16(ctx.Rng)
+			if g := ctx.Batch*n + i; g%4 == 0 {
+				c = genC16Late(ctx.Rng, 1+(g/4)%4)
+			}
 			ctx.LogCase(map[string]interface{}{"class": "process-died-during-analysis", "case": c})
 			// the property: option false
 			c.Parallel = false
@@ -458,6 +492,9 @@ func init() {
 			}
 			if c.CancelEarly {
 				class += ":stop-request-during-the-first-analysis"
+			}
+			if len(c.LateReadable) > 0 {
+				class += ":pwm-file-readable-late"
 			}
 			if c.OptionVia != "" {
 				class += ":option-via-" + c.OptionVia
